@@ -27,6 +27,10 @@ OPTION_SETS = [[], [], ["score=automatic"], ["score=automatic"], ["bmax=5"], ["i
                # the number files in other spellings the reader accepts (reals, exponents, signs, one number per line)
                ["SPELL=real", "imax=20"], ["SPELL=exp", "score=automatic", "imax=20"], ["SPELL=lines", "imax=20"]]
 
+# option sets that only run in the "every option set once" pass (kept out of OPTION_SETS so that the random picks do not move):
+# spurious_range at and below zero (clamped to 1)
+EXTRA_SETS = [["spurious_range=0", "imax=20"], ["spurious_range=-3", "score=automatic", "imax=20"], ["spurious_range=0", "score=spurious", "bmax=3"]]
+
 def hand_triples(rng):
     out = []
     for st in ("N", "A", "S", "NN", "AC", "N N", "NNNNN  NNNNN", " NNNNNNN NNNN  NNN", "  SWNNH DNNWS", " N"):      # also: templates that start with blanks (trailing blanks are stripped by the loader, by design)
@@ -131,7 +135,7 @@ def run(tier, seed, build):
     # every option set once, whatever the random choices above: on a hairpin with a free loop
     hp = [t for t in triples if any(x != -1 for x in t[1])][:1]
     for st, wc, eq in hp:
-        for opts in OPTION_SETS[2:]:
+        for opts in OPTION_SETS[2:] + EXTRA_SETS:
             cases.append({"st": st, "wc": wc, "eq": eq, "opts": list(opts), "binary": binary, "dir": os.path.join(wd, "r%d" % len(cases)), "seed": rng.randrange(10**6)})
     try:
         impl = fw.run_impl("props.c19", "impl_case", cases, per_case_timeout=200, procs=14, chunksize=1)
